@@ -1,6 +1,8 @@
 """Generic BEX worker over the specimen universe: materialises the composites of each case and applies an oracle."""
 from __future__ import annotations
 
+import os
+
 import collections
 import json
 
@@ -29,7 +31,7 @@ def run(cases, oracle, extra=None):
                 from .xstate import Timeout
 
                 try:
-                    with Timeout(600):   # watchdog: a reduce()/solve that never returns is a finding, not a hang
+                    with Timeout(float(os.environ.get('VERIF_WATCHDOG_S') or 600)):   # watchdog: a reduce()/solve that never returns is a finding, not a hang
                         probs, nt = oracle(desc, op, exact)
                 except CaseTimeout:
                     probs, nt = [('did-not-terminate', 'the oracle (mv / reduce / as_matrix / jit) did not return within 600 s')], False
